@@ -6,7 +6,9 @@ import (
 	"net/url"
 	"strings"
 	"sync"
+	"sync/atomic"
 	"testing"
+	"time"
 
 	"github.com/gofiber/fiber/v3"
 	"pgregory.net/rapid"
@@ -67,10 +69,26 @@ func pctDecode(s string) string {
 	return d
 }
 
+// hung: a dispatch did not return; its goroutine keeps a core busy, so nothing further is explored in this process
+var hung atomic.Bool
+
 func checkOn(ra *routeApp, c Case) vk.Verdict {
+	if hung.Load() {
+		return vk.Verdict{Skip: true}
+	}
 	ra.hit = false
 	ra.got = ra.got[:0]
-	vk.Do(ra.app, "GET", c.Path)
+	done := make(chan struct{})
+	go func() {
+		defer close(done)
+		vk.Do(ra.app, "GET", c.Path)
+	}()
+	select {
+	case <-done:
+	case <-time.After(5 * time.Second):
+		hung.Store(true)
+		return vk.Failf("pattern %q (cs=%v strict=%v unesc=%v): dispatching the path %q did not return within 5 s", c.Pattern, c.CS, c.Strict, c.Unesc, c.Path)
+	}
 	v := vk.Verdict{Classes: []string{"variant:" + c.Variant}}
 	if c.Slashless {
 		v.Classes = append(v.Classes, "slash-less literal text behind a greedy parameter (C03-d shape)")
@@ -161,7 +179,7 @@ func (t tok) src() string {
 	}
 }
 
-var exLits = []string{"/", "/a", "/ab", "/abc", "/a/", "/a-", "-", ".", "-a", ".a", "/A", "-a/"}
+var exLits = []string{"/", "/a", "/ab", "/abc", "/a/", "/a-", "-", ".", "-a", ".a", "/A", "-a/", "//"}
 
 func enumPatterns(maxTok int, emit func([]tok)) {
 	var rec func(cur []tok)
@@ -338,6 +356,11 @@ func fillPctLit(toks []tok, vals []string, swap bool) (string, bool) {
 
 func casesFor(toks []tok, cs, strict, unesc bool, emit func(Case)) {
 	pattern := patternString(toks)
+	if !strict && strings.Contains(pattern, "//") {
+		// an empty path segment in a pattern: what "ignores a trailing slash" means next to it is not settled by the
+		// statement (fiber strips every trailing slash of the path); such patterns are explored under StrictRouting only
+		return
+	}
 	var params []int
 	for i, t := range toks {
 		if t.Kind != 0 {
